@@ -52,6 +52,7 @@ pub(crate) enum K {
     CapStuff,
     Die,
     Motd,
+    Opaque,
 }
 
 pub(crate) const NICKS: &[&str] = &["ann", "bob", "cat", "dan", "eve", "fay", "gus", "hal", "root", "ops", "żółw", "ünï", "a", "bobby"];
@@ -1145,6 +1146,10 @@ impl<'a> Gen<'a> {
             K::Lusers => self.say(c, "LUSERS"),
             K::Motd => {
                 let l = ["MOTD", "ADMIN"][self.r.below(2)];
+                self.say(c, l)
+            }
+            K::Opaque => {
+                let l = ["VERSION", "TIME", "INFO", "HELP", "HELP COMMANDS", "LINKS", "CONNECT other.srv 6667", "REHASH", "RESTART", "VERSION other.srv", "TIME other.srv", "HELP nosuchtopic"][self.r.below(12)];
                 self.say(c, l)
             }
             K::Nick => {
